@@ -14,6 +14,8 @@ void runEpisode(const nlohmann::json& ep)
         runSt(ep);
     else if (comp == "val")
         runVal(ep);
+    else if (comp == "vld")
+        runVld(ep);
     else
     {
         Out o;
